@@ -52,12 +52,13 @@ def run(ctx):
                 def extra():
                     return {"instrumentation": instr_mon.make_instrumentation(log, 0)}
 
-                def run_with(ch, config=config):
+                def run_with(ch, config=config, eager=False):
                     log.events = []
-                    return exec_mon.run_request(config, case, text, op, variables, ch, extra)
+                    return exec_mon.run_request(config, case, text, op, variables, ch, extra, eager=eager)
 
                 seen = set()
-                for schedule, (out, trace), exh in exec_mon.schedules(config, rng, run_with, max_exh, n_samples):
+                for schedule, (out, trace), exh in exec_mon.schedules(config, rng, run_with, max_exh, n_samples,
+                        eager_run_with=lambda ch, run_with=run_with: run_with(ch, eager=True)):
                     events = list(log.events)
                     ctx.evaluated()
                     ctx.count("runs:" + config)
